@@ -400,7 +400,50 @@ fn gen_facts(rng: &mut Rng, u: &Uni, max: usize, stats: &mut Stats) -> Vec<Strin
     out
 }
 
+/// rename every constant by a permutation of the identifiers (the value table moves with them): the program is the same
+/// up to the dictionary's encoding order, which changes every internal sort and hash order
+fn permute_ids(rng: &mut Rng, vals: &[String], rules: &mut [String], facts: &mut [String]) -> Vec<String> {
+    let n = vals.len();
+    let mut perm: Vec<usize> = (0..n).collect();
+    rng.shuffle(&mut perm);
+    let mut nv = vec![String::new(); n];
+    for (old, new) in perm.iter().enumerate() {
+        nv[*new] = vals[old].clone();
+    }
+    let map_const = |tok: &str| -> String {
+        // a term is `c<k>`, `v<k>`, `n<int>` or an operator word
+        if let Some(k) = tok.strip_prefix('c').and_then(|x| x.parse::<usize>().ok()) {
+            if k < n {
+                return format!("c{}", perm[k]);
+            }
+        }
+        tok.to_string()
+    };
+    for r in rules.iter_mut() {
+        let body = r.strip_prefix("R:").unwrap_or(r).to_string();
+        let parts: Vec<String> = body
+            .split('/')
+            .map(|part| {
+                part.split('+').map(|pat| pat.split('.').map(|t| map_const(t)).collect::<Vec<_>>().join(".")).collect::<Vec<_>>().join("+")
+            })
+            .collect();
+        *r = format!("R:{}", parts.join("/"));
+    }
+    for f in facts.iter_mut() {
+        if let Some(x) = f.strip_prefix("F:") {
+            let v: Vec<String> = x.split(',').map(|k| k.parse::<usize>().ok().filter(|k| *k < n).map(|k| perm[k].to_string()).unwrap_or_else(|| k.to_string())).collect();
+            *f = format!("F:{}", v.join(","));
+        }
+    }
+    nv
+}
+
 fn assemble(rng: &mut Rng, strat: &str, u: &Uni, mut rules: Vec<String>, mut facts: Vec<String>) -> String {
+    let mut vals = u.vals.clone();
+    if rng.chance(1, 3) {
+        vals = permute_ids(rng, &u.vals, &mut rules, &mut facts);
+    }
+    let u = &Uni { ents: u.ents.clone(), low: u.low.clone(), up: u.up.clone(), vals };
     rng.shuffle(&mut rules);
     rng.shuffle(&mut facts);
     let mut body = rules;
